@@ -57,6 +57,14 @@ REQUIRE = {
     "enc_nonutf8_frames": 100,
     "partial_mode_frames": 20,
     "frames_same_object": 10,
+    "restarts": 40,
+    "frames_after_restart:inline->alt": 10,
+    "frames_after_restart:alt->inline": 10,
+    "frames_after_restart:inline->inline": 10,
+    "frames_after_restart:alt->alt": 10,
+    "canvas_class:SolidCanvas": 30,
+    "canvas_class:UserCanvas": 30,
+    "content_fingerprints_rechecked": 500,
     "frames_drawn_after_previous_canvas_released": 300,
     "ctrl_byte_cells_compared_as_?": 100,
     "rows_ctrl_byte_before_trailing_blanks": 20,
@@ -81,7 +89,13 @@ RULE = (
     "before trailing blanks, and widget texts hold tabs. A fifth of the histories and dedicated 40-200 frame histories follow "
     "the MainLoop discipline: every reference to a canvas is dropped (del + gc) right after draw_screen and only then the next "
     "canvas is built, taking the one that lands on the released address if one of 8 same-type allocations does. "
-    "Plus 40 fixed directed histories. Distinct = hash of the whole case descriptor; non-trivial = at least one "
+    "About a tenth of the fresh frames are canvases of other classes handed to draw_screen directly: SolidCanvas (blank / "
+    "non-blank fill; one row list for all rows), SolidCanvas inside a CompositeCanvas with a fill attribute, and a user Canvas "
+    "subclass whose content() yields its stored row lists or one shared list for equal rows -- drawn over whatever the previous "
+    "frame left; content() is fingerprinted before and after every draw_screen. One case in nine is a multi-session history on "
+    "ONE Screen and terminal: start(alternate_buffer=a1) .. stop(); start(alternate_buffer=a2) .. (all four combinations, inline "
+    "sessions starting on row 1..h-1 after the shell's CUP + ED). "
+    "Plus fixed directed histories. Distinct = hash of the whole case descriptor; non-trivial = at least one "
     "frame was drawn and compared."
 )
 ASSUMES = [
@@ -104,6 +118,12 @@ ASSUMES = [
     "Partial-screen mode (start(alternate_buffer=False)): the display starts at the cursor row of the normal screen below `base` rows "
     "of history that must stay intact; canvas rows that have no terminal row are blank; blank rows whose attribute paints like the "
     "default entry may be left unpainted (documented intent), other rows are judged like in full-screen mode; no GARBAGE, no resizes.",
+    "stop()/start() on one Screen: read as covered by 'any sequence of screen draws' (SIGTSTP/SIGCONT and shelling out do exactly "
+    "this); between sessions the terminal keeps its state (VT: ESC[?1049l restores the cursor saved by ESC[?1049h including the "
+    "character-set designations, as xterm does); before an inline session the harness plays the shell: CUP to the start row and ED. "
+    "What stop() itself must restore is C12's subject, not judged here.",
+    "BlankCanvas cannot be drawn directly (rows() raises); row tuples instead of row lists are outside the documented content() "
+    "protocol ('each row is a list of (attr, cs, text) tuples') and are not generated.",
     "TERM=xterm is set while the Screen is constructed (term-specific branches 'fbterm'/'linux' are outside the quantifier).",
     "In a byte (narrow) encoding a control byte is one column for calc_width/TextCanvas and draw_screen documents its translation to "
     "'?': such cells are judged like any other (expected glyph '?'); SO/SI are not generated (apply_target_encoding reads them as shifts), "
@@ -325,14 +345,69 @@ def build_widget_frame(fr):
     return top.render((fr["w"], fr["h"]), focus=True)
 
 
+_USER_CANVAS = {}
+
+
+def user_canvas_class():
+    """a user Canvas subclass following the documented content() protocol (rows = lists of (attr, cs, bytes)):
+    mode 'stored' yields the row lists it keeps (the same objects on every call), mode 'shared' yields ONE list
+    object for consecutive equal rows (what SolidCanvas / BlankCanvas do)"""
+    import urwid
+
+    if "cls" not in _USER_CANVAS:
+
+        class UserCanvas(urwid.Canvas):
+            def __init__(self, rows, cols, mode, cursor=None):
+                super().__init__()
+                self._rows = rows
+                self._cols = cols
+                self._mode = mode
+                self.cursor = cursor
+
+            def cols(self):
+                return self._cols
+
+            def rows(self):
+                return len(self._rows)
+
+            def content(self, trim_left=0, trim_top=0, cols=0, rows=0, attr=None):
+                prev = None
+                for row in self._rows:
+                    if self._mode == "shared" and prev is not None and prev == row:
+                        yield prev
+                        continue
+                    prev = row if self._mode == "stored" else list(row)
+                    yield prev
+
+            def content_delta(self, other):
+                return self.content()
+
+        _USER_CANVAS["cls"] = UserCanvas
+    return _USER_CANVAS["cls"]
+
+
 def build_frame(fr):
-    if fr["k"] == "text":
+    import urwid
+
+    k = fr["k"]
+    if k == "text":
         return build_text_frame(fr)
+    if k == "solid":
+        # a SolidCanvas handed to draw_screen directly (top widget = SolidFill): content() yields one list for all rows
+        c = urwid.SolidCanvas(fr["fill"], fr["w"], fr["h"])
+        if fr.get("attr", "-") != "-":
+            c = urwid.CompositeCanvas(c)
+            c.fill_attr(mk_attr(fr["attr"]))
+        return c
+    if k == "user":
+        t = text_canvas(fr["rows"], fr["w"])
+        cur = fr.get("cur")
+        return user_canvas_class()([list(r) for r in t.content()], fr["w"], fr["mode"], tuple(cur) if cur else None)
     return build_widget_frame(fr)
 
 
 def frame_size(fr):
-    if fr["k"] == "text":
+    if fr["k"] in ("text", "user"):
         return fr["w"], len(fr["rows"])
     return fr["w"], fr["h"]
 
@@ -535,11 +610,15 @@ class Session:
         self.scroll_seen = 0
         self.font_before = False
         self.cy_stale = False
+        self.cy_ok_since_restart = False
         self.release = bool(cfg.get("release"))
         self.prev_canvas_id = None
         self.early_return_new_canvas = None
         self.alt = cfg.get("alt", True)
         self.base = 0 if self.alt else cfg.get("base", 0)
+        self.above = []
+        self.session_no = 0
+        self.session_tag = ""
         self.started = False
 
     def start(self, size):
@@ -549,6 +628,7 @@ class Session:
         if not self.alt:
             # partial-screen mode: the display starts at the cursor row of the normal screen, below `base` rows of history
             self.vt.feed((b"H" * size[0] + b"\r\n") * self.base)
+        self.above = [[c.ch for c in row] for row in self.vt.cells[: self.base]]
         self.scr.start(alternate_buffer=self.alt)
         self.started = True
         self.feed()
@@ -557,6 +637,38 @@ class Session:
         got = self.scr.get_cols_rows()
         if tuple(got) != tuple(size):
             raise RuntimeError(f"harness: get_cols_rows {got} != {size}")
+
+    def restart(self, alt, base):
+        """stop() and start() again on the SAME Screen object and the same terminal, possibly in the other buffer mode
+        (an application that leaves the screen for a while, or runs a second MainLoop on its screen)"""
+        prev = "alt" if self.alt else "inline"
+        self.scr.stop()
+        self.started = False
+        self.feed()
+        if self.vt.alt_screen:
+            raise Found("C04|raw|stop|still-on-the-alternate-screen", "after stop() the terminal is still on the alternate screen")
+        self.alt = bool(alt)
+        if not self.alt:
+            # what a shell does before an inline program: cursor somewhere down the screen, nothing below it
+            self.vt.feed(f"\x1b[{min(base, self.size[1] - 1) + 1};1H\x1b[J".encode())
+        self.base = 0 if self.alt else self.vt.cursor[1]
+        self.above = [[c.ch for c in row] for row in self.vt.cells[: self.base]]
+        self.exp = self.last_canvas = self.last_frame = None
+        self.prev_canvas_id = None
+        self.pending_full = True
+        self.cy_stale = False
+        self.cy_ok_since_restart = False
+        self.scroll_seen = self.vt.scroll_count
+        self.session_no += 1
+        self.session_tag = f"{prev}->{'alt' if self.alt else 'inline'}"
+        self.scr.start(alternate_buffer=self.alt)
+        self.started = True
+        self.feed()
+        self.scroll_seen = self.vt.scroll_count
+        self.count("restarts")
+        self.count(f"restart:{self.session_tag}")
+        if self.alt != self.vt.alt_screen:
+            raise Found("C04|raw|start|alternate-screen-state-wrong", f"after start(alternate_buffer={self.alt}) alt_screen={self.vt.alt_screen}")
 
     def close(self):
         import urwid
@@ -620,6 +732,8 @@ class Session:
     def note_cy(self):
         """classification aid only (never a verdict): in partial-screen mode urwid moves relative to the row it believes the
         terminal cursor is on (Screen._cy); remember whether that belief is already wrong before this draw"""
+        if (not self.alt) and self.vt is not None and (self.vt.cursor[1] - self.base) == self.scr._cy and not self.cy_stale:
+            self.cy_ok_since_restart = True
         if (not self.alt) and self.vt is not None and (self.vt.cursor[1] - self.base) != self.scr._cy:
             self.cy_stale = True  # sticky: once a frame was painted at the wrong rows everything later in this session is suspect
 
@@ -689,6 +803,18 @@ class Session:
                 f"{type(e).__name__}: {e}\n{traceback.format_exc(limit=5)}",
             ) from e
         data = self.feed()
+        self.count(f"canvas_class:{type(canvas).__name__}")
+        self.count("content_fingerprints_rechecked")
+        try:
+            after = [list(r) for r in canvas.content()]
+        except Exception as e:  # noqa: BLE001
+            after = repr(e)
+        if after != exp.content:
+            self.scr.clear()
+            raise Found(
+                f"C04|raw|draw_screen-modified-what-canvas.content()-yields|{type(canvas).__name__}",
+                f"content() before draw_screen: {exp.content!r}\nafter: {after!r}",
+            )
         self.exp, self.last_canvas, self.last_frame = exp, canvas, frame
         self.count("frames_drawn")
         self.count(f"frames_{tag}")
@@ -697,6 +823,9 @@ class Session:
             self.count("enc_nonutf8_frames")
         if not self.alt:
             self.count("partial_mode_frames")
+        if self.session_no:
+            self.count("frames_drawn_after_restart")
+            self.count(f"frames_after_restart:{self.session_tag}")
         if frame["k"] == "widget":
             self.count("widget_frames")
         if self.rec.total == before:
@@ -736,6 +865,15 @@ class Session:
         except Found as f:
             if exp.has_c0:
                 raise Found("C04|raw|c0-control-in-canvas-text|painted-as-?-in-a-column-the-canvas-does-not-have", f.msg) from f
+            if self.session_no and self.cy_stale and not self.cy_ok_since_restart:
+                raise Found(
+                    "C04|raw|after-stop-and-restart|inline-session-starts-with-the-cursor-row-bookkeeping-of-the-previous-session",
+                    f.msg,
+                ) from f
+            if self.session_no and "|glyph|" in f.sig and f.cell and self.vt.charsets[1] != "0":
+                x, y = f.cell
+                if _cs_tag(exp, y, x - (exp.cells[y][x][2] == 2)) == "dec":
+                    raise Found("C04|raw|after-stop-and-restart|G1-designation-undone-by-the-restored-cursor-and-not-sent-again", f.msg) from f
             if phase == "draw" and self.early_return_new_canvas:
                 raise Found(
                     "C04|raw|draw_screen-wrote-nothing-for-a-canvas-object-it-had-not-drawn|" + self.early_return_new_canvas,
@@ -762,7 +900,7 @@ class Session:
         base = self.base
         nrows = exp.rows - base  # canvas rows that have a terminal row (the rest must be blank: generator invariant)
         for y in range(base):
-            if any(c.ch != "H" for c in vt.cells[y]):
+            if [c.ch for c in vt.cells[y]] != self.above[y]:
                 raise Found("C04|raw|history-rows-above-the-display-overwritten", f"row {y} above the partial display changed\n{self.describe(exp)}")
         if vt.scroll_count != self.scroll_seen:
             k = vt.scroll_count - self.scroll_seen
@@ -936,6 +1074,8 @@ def run_raw(ctx, case, count=True):
             return fn(*a, **kw)
         except Found as f:
             sig = f.sig
+            if sess.session_no and not sig.startswith("C04|raw|after-stop-and-restart"):
+                sig = f"C04|raw|after-stop-and-restart|{sess.session_tag}|" + "|".join(sig.split("|")[2:4])
             if all(sig != s for s, _ in found):
                 found.append((sig, f.msg))
             if sess.vt is not None and sess.started:
@@ -953,6 +1093,9 @@ def run_raw(ctx, case, count=True):
                     continue  # no resizes in partial-screen histories
                 if step(sess.draw, op[1]):
                     drawn += 1
+            elif k == "restart":
+                if sess.started:
+                    step(sess.restart, op[1], op[2])
             elif sess.size is None or sess.last_frame is None:
                 continue
             elif k == "clear":
@@ -1469,6 +1612,63 @@ def mutate_tree(rng, t, enc):
     return t
 
 
+def gen_other_class_frame(rng, w, h, enc, pool):
+    """canvases of other classes handed to draw_screen directly: SolidCanvas (one row list for all rows), SolidCanvas inside a
+    CompositeCanvas with a fill attribute, and a user Canvas subclass that yields stored / shared row lists"""
+    r = rng.random()
+    if r < 0.5:
+        fr = {"k": "solid", "w": w, "h": h, "fill": rng.choice([" ", " ", " ", "x", "#", "\u2500", "\u00e9"])}
+        if rng.random() < 0.35:
+            fr["attr"] = pool.pick()
+        return fr
+    t = gen_text_frame(rng, w, h, enc, pool)
+    rows = t["rows"]
+    for y in range(h):
+        q = rng.random()
+        if q < 0.35:
+            rows[y] = [[" " * w, None]] if rng.random() < 0.6 else gen_row(rng, w, enc, pool, "blank-tail")
+        elif q < 0.55 and y:
+            rows[y] = [list(sg) for sg in rows[y - 1]]  # equal consecutive rows: mode 'shared' yields one list for both
+    return {"k": "user", "w": w, "rows": rows, "cur": t["cur"], "mode": rng.choice(["stored", "shared"])}
+
+
+def gen_session_case(rng):
+    """several sessions on ONE Screen object and one terminal: start(alternate_buffer=a1) .. stop(); start(alternate_buffer=a2) ..;
+    inline (partial-screen) sessions begin on row 1..h-1 of the normal screen"""
+    enc = rng.choice(["utf-8", "utf-8", "iso8859-1"])
+    colors = rng.choice([16, 256])
+    w, h = rng.choice([1, 2, 3, 5, 8, 13, 20]), rng.choice([3, 4, 5, 6, 8])
+    palette, names = gen_palette(rng, colors)
+    pool = AttrPool(rng, names)
+
+    def frames(alt, base):
+        out = []
+        for _ in range(rng.randint(1, 4)):
+            fr = gen_text_frame(rng, w, h, enc, pool)
+            fr["wrap"] = ["text"]
+            if not alt:
+                k = rng.randint(0, h - base)
+                for y in range(k, h):
+                    fr["rows"][y] = [[" " * w, None]]
+                if fr["cur"] and fr["cur"][1] >= max(k, 1):
+                    fr["cur"] = [fr["cur"][0], rng.randrange(max(k, 1))]
+            out.append(["draw", fr])
+            if rng.random() < 0.12:
+                out.append(["clear"])
+        return out
+
+    alt = rng.random() < 0.5
+    base = rng.randrange(1, h)
+    cfg = {"enc": enc, "colors": colors, "bib": False, "bce": rng.random() < 0.6, "pal_first": True, "alt": alt, "base": base}
+    ops = frames(alt, base)
+    for _ in range(rng.randint(1, 3)):
+        alt = rng.random() < 0.5
+        base = rng.randrange(1, h)
+        ops.append(["restart", alt, base])
+        ops += frames(alt, base)
+    return {"cfg": cfg, "palette": palette, "ops": ops}
+
+
 def gen_release_case(rng, n_frames):
     """MainLoop discipline, long: the harness drops every reference to a canvas right after draw_screen() and only then
     builds the next one; a handful of distinct same-size frames in random order, so a draw that is skipped or stale shows"""
@@ -1549,6 +1749,8 @@ def gen_case(rng):
     def fresh(w, h):
         if widgety and rng.random() < 0.8:
             return gen_widget_frame(rng, max(w, 3), h, enc, pool)
+        if rng.random() < 0.12:
+            return gen_other_class_frame(rng, w, h, enc, pool)
         return gen_text_frame(rng, w, h, enc, pool, c0_p=c0_p, ibm=ibm)
 
     c0_p = 0.5 if rng.random() < 0.04 else 0.0
@@ -1562,8 +1764,15 @@ def gen_case(rng):
     for _ in range(rng.randint(0, 11)):
         r = rng.random()
         if r < 0.55:
-            if cur["k"] == "text":
+            if cur["k"] == "text" and rng.random() < 0.08:
+                cur = gen_other_class_frame(rng, *frame_size(cur), enc, pool)  # e.g. SolidFill(" ") over what is there now
+            elif cur["k"] == "text":
                 cur = mutate_text_frame(rng, cur, enc, pool)
+            elif cur["k"] == "user":
+                m = mutate_text_frame(rng, dict(cur, k="text", wrap=["text"]), enc, pool)
+                cur = dict(cur, rows=m["rows"], cur=m["cur"])
+            elif cur["k"] == "solid":
+                cur = gen_text_frame(rng, *frame_size(cur), enc, pool)
             else:
                 cur = dict(cur, tree=mutate_tree(rng, cur["tree"], enc))
             ops.append(["draw", cur])
@@ -1795,6 +2004,24 @@ def directed_cases():
     for txt in ("name\tqty\t   ", "ab\x0b    \r  ", "\x0c         "):
         out.append({"cfg": cfg, "palette": [], "ops": [["draw", {"k": "text", "w": len(txt), "rows": [[[txt, None]], [["x" * len(txt), None]]], "cur": None, "wrap": ["text"]}]]})
     out.append({"cfg": dict(cfg, alt=False, base=1), "palette": [], "ops": [["draw", {"k": "text", "w": 3, "rows": [[["   ", None]], [["\x0b  ", None]], [["   ", None]]], "cur": None, "wrap": ["text"]}]]})
+    # two sessions on one Screen, all four buffer-mode combinations; the inline session starts on row 2
+    top = {"k": "text", "w": 4, "rows": [[["ab  ", None]], [["    ", None]], [["    ", None]], [["    ", None]]], "cur": [1, 0], "wrap": ["text"]}
+    top2 = {"k": "text", "w": 4, "rows": [[["cd  ", None]], [["e   ", None]], [["    ", None]], [["    ", None]]], "cur": None, "wrap": ["text"]}
+    for a1 in (False, True):
+        for a2 in (False, True):
+            out.append({"cfg": dict(cfg, alt=a1, base=2), "palette": [], "ops": [["draw", top], ["draw", top2], ["restart", a2, 2], ["draw", top], ["draw", top2], ["clear"], ["draw", top]]})
+    # other canvas classes directly, over a screen that shows something else
+    full = {"k": "text", "w": 4, "rows": [[["abcd", None]], [["efgh", None]], [["ijkl", None]]], "cur": None, "wrap": ["text"]}
+    for enc in ("utf-8", "iso8859-1"):
+        c2 = {"enc": enc, "colors": 16, "bib": False, "bce": True, "pal_first": True}
+        for other in (
+            {"k": "solid", "w": 4, "h": 3, "fill": " "},
+            {"k": "solid", "w": 4, "h": 3, "fill": "x"},
+            {"k": "solid", "w": 4, "h": 3, "fill": " ", "attr": "b"},
+            {"k": "user", "w": 4, "rows": [[["a   ", None]], [["a   ", None]], [["    ", None]]], "cur": [1, 1], "mode": "shared"},
+            {"k": "user", "w": 4, "rows": [[["a   ", None]], [["b", "b"], ["   ", None]], [["    ", None]]], "cur": None, "mode": "stored"},
+        ):
+            out.append({"cfg": c2, "palette": [["b", "yellow", "dark red"]], "ops": [["draw", full], ["draw", other], ["equal"], ["draw", full], ["draw", other]]})
     return out
 
 
@@ -1817,7 +2044,12 @@ def run(ctx):
     k = 0
     while ctx.more(1.0):
         k += 1
-        case = gen_release_case(rng, ctx.pick(40, 120)) if k % 40 == 0 else gen_case(rng)
+        if k % 40 == 0:
+            case = gen_release_case(rng, ctx.pick(40, 120))
+        elif k % 9 == 0:
+            case = gen_session_case(rng)
+        else:
+            case = gen_case(rng)
         run_case(ctx, case, shrunk)
         if ctx.more(1.0):
             run_html_case(ctx, case)
